@@ -221,6 +221,11 @@ def run(rep: Report, tier: str) -> None:  # noqa: C901
     rep.rule("R02.9", "join bookkeeping (_join_alias_map / _consumed_join_aliases) is reset once per statement on every path of visit_Start: a leftover alias decides which "
                       "columns a later clause keeps, drops or renames")
     transp.state_discipline(P, rep, "R02.9", only_attrs={"_join_alias_map", "_consumed_join_aliases"}, parts="ab")
+    # ---- R02.10: after a join, components are addressed by their unprefixed names (shared with C04 R04.9) ----
+    rep.rule("R02.10", "the prefix stripping after a join leaves every component under its own unprefixed name (dict key == component name): a clause applied to the "
+                       "join result finds, keeps, drops and renames components by that name")
+    from sa.checks.c04 import strip_prefixes_model as _strip_model
+    _strip_model(P, rep, "R02.10")
     rep.assumptions = ["abstract structures: names and roles only; expressions inside calc/filter are opaque", "SQL: WHERE keeps the rows for which its predicate is TRUE",
                        "inside the clause handlers SQLBuilder is a recording stand-in; that the real class conjoins its where() conditions is decided by R02.5"]
 
